@@ -1,7 +1,7 @@
 """Unit set_ops: only constructs the dialect can express are emitted around set operations and CTEs.
 
 Real code under contract:
-  prqlc/prqlc/src/sql/pq/preprocess.rs  except(): slice `if !distinct && !ctx.dialect.except_all() { .. }` (EXCEPT ALL guard)
+  prqlc/prqlc/src/sql/pq/preprocess.rs  except(): statements from `let mut distinct = false;` to `res.pop(); // filter` (DISTINCT detection and EXCEPT ALL guard)
   prqlc/prqlc/src/sql/gen_query.rs      translate_query: then-block of `if !pq_query.ctes.is_empty()` (WITH [RECURSIVE]);
                                         translate_set_ops_pipeline: the `set_quantifier:` expression
 """
@@ -19,8 +19,8 @@ RLIMIT = 60
 
 ASSUMED = [
     {"what": "opaque external types", "keys": ["pub struct Opaque"]},
-    {"what": "dialect feature flags (except_all, set_ops_distinct) and AnchorContext::contains_wildcard are parameters of the slices; the error text is opaque",
-     "keys": ["fn opaque_error"]},
+    {"what": "dialect feature flags (except_all, set_ops_distinct) and AnchorContext::contains_wildcard are parameters / fields of the context shim; SqlTransform is the "
+             "shim {Distinct, Other}; the error text is opaque", "keys": ["fn opaque_error"]},
     {"what": "translate_cte is external: returns the CTE and whether it is a loop (recursive) CTE: cte_is_loop(); sqlparser With / AttachedToken are shims",
      "keys": ["spec fn cte_is_loop", "fn translate_cte", "fn attached_token_empty", "struct Cte"]},
 ]
@@ -57,28 +57,39 @@ pub mod sql_ast {
 
 
 def build(X):
-    # ---- EXCEPT ALL guard
-    g = X.if_blocks(PREPROCESS, "except", "if !distinct && !ctx.dialect.except_all() {", name="except_guard", need_else=False)[0]
-    g.rewrite_re("R5", r"ctx\.anchor\.contains_wildcard\(&top\) \|\| ctx\.anchor\.contains_wildcard\(&bottom\)", "has_wildcard", count=None,
-                 why="wildcard test over the two column lists is a parameter of the slice")
+    # ---- EXCEPT ALL guard: everything between the pattern checks and the construction of the Except
+    g = X.slice(PREPROCESS, "except", "let mut distinct = false;", "res.pop(); // filter", name="except_guard", include_end=False)
+    g.rewrite_re("R5", r"ctx\.anchor\.contains_wildcard\(&(top|bottom)\)", r"ctx.anchor.contains_wildcard_\1()", count=None,
+                 why="wildcard test over the column lists of the two operands: uninterpreted flags of the context shim")
     g.rewrite_re("R5", r"return Err\(Error::new_simple\(format!\(.*?\)\)\s*\.push_hint\(.*?\)\);", "return Err(opaque_error());", count=None,
                  why="error construction is opaque")
-    g.text = ("pub fn except_all_guard(distinct: bool, except_all: bool, has_wildcard: bool) -> (r: Result<bool, Error>)\n"
+    g.rewrite_re("R5", r"\bctx\.dialect\.except_all\(\)", "ctx.dialect_except_all", count=None, why="dialect flag is a field of the context shim")
+    g.text = ("pub enum SqlT { Distinct, Other(OpaqueT) }\nuse SqlT::*;\n"
+              "pub struct AnchorShim { pub wild_top: bool, pub wild_bottom: bool }\n"
+              "impl AnchorShim { pub fn contains_wildcard_top(&self) -> (r: bool) ensures r == self.wild_top, { self.wild_top }\n"
+              "                  pub fn contains_wildcard_bottom(&self) -> (r: bool) ensures r == self.wild_bottom, { self.wild_bottom } }\n"
+              "pub struct CtxShim { pub dialect_except_all: bool, pub anchor: AnchorShim }\n"
+              "// the top operand is DISTINCT: the transform just before the join / filter pair\n"
+              "pub open spec fn top_distinct(res: Seq<SqlT>) -> bool { res.len() >= 3 && res[res.len() - 3] is Distinct }\n"
+              "pub fn except_all_guard(res: &Vec<SqlT>, ctx: &CtxShim) -> (r: Result<(bool, bool), Error>)\n"
               "    ensures\n"
-              "        // Ok(true) = an SqlTransform::Except { distinct } is created for this join/filter pair\n"
+              "        // Ok((true, d)) = an SqlTransform::Except { distinct: d } is created for this join/filter pair; Ok((false, _)) = the anti-join is kept\n"
               "        // C07: EXCEPT ALL (distinct == false) only for dialects that have it\n"
-              "        (r is Ok && r->Ok_0) ==> (distinct || except_all), // @EX1\n"
+              "        (r is Ok && r->Ok_0.0) ==> (r->Ok_0.1 || ctx.dialect_except_all), // @EX1\n"
+              "        (r is Ok && r->Ok_0.0) ==> r->Ok_0.1 == top_distinct(res@),\n"
               "        // otherwise: compile error when the columns are not all known, anti-join fallback (no Except) when they are\n"
-              "        (!distinct && !except_all && has_wildcard) ==> r is Err, // @EX2\n"
-              "        (!distinct && !except_all && !has_wildcard) ==> (r is Ok && !r->Ok_0), // @EX3\n"
-              "{\n    let mut creates_except = false;\n    let mut first = true;\n"
-              "    while first\n        invariant !first ==> true, first ==> !creates_except, !first ==> (creates_except ==> (distinct || except_all)), // @EX1\n"
-              "                  (!first && !creates_except) ==> (!distinct && !except_all && !has_wildcard),\n        decreases (if first { 1int } else { 0int }),\n    {\n"
+              "        (!top_distinct(res@) && !ctx.dialect_except_all && (ctx.anchor.wild_top || ctx.anchor.wild_bottom)) ==> r is Err, // @EX2\n"
+              "        (!top_distinct(res@) && !ctx.dialect_except_all && !(ctx.anchor.wild_top || ctx.anchor.wild_bottom)) ==> (r is Ok && !r->Ok_0.0), // @EX3\n"
+              "{\n    let mut creates_except = false;\n    let mut distinct_out = false;\n    let mut first = true;\n"
+              "    while first\n        invariant first ==> !creates_except,\n"
+              "                  !first ==> (creates_except ==> ((distinct_out || ctx.dialect_except_all) && distinct_out == top_distinct(res@))), // @EX1\n"
+              "                  (!first && !creates_except) ==> (!top_distinct(res@) && !ctx.dialect_except_all && !(ctx.anchor.wild_top || ctx.anchor.wild_bottom)),\n"
+              "        decreases (if first { 1int } else { 0int }),\n    {\n"
               "        first = false;\n"
-              "        if !distinct && !except_all {\n" + g.text + "\n        }\n"
-              "        creates_except = true;\n    }\n    Ok(creates_except)\n}\n")
-    g.rewrites.append({"rule": "slice", "what": "then-block of `if !distinct && !ctx.dialect.except_all()` of except() placed in a one-iteration loop (its "
-                       "`continue` = 'do not create an Except for this pair'); the condition itself is restated with the flag as a parameter"})
+              "        " + g.text + "\n"
+              "        creates_except = true; distinct_out = distinct;\n    }\n    Ok((creates_except, distinct_out))\n}\n")
+    g.rewrites.append({"rule": "slice", "what": "statements of except() from `let mut distinct = false;` up to `res.pop(); // filter` placed in a one-iteration loop (their "
+                       "`continue` = 'do not create an Except for this pair'); falling through = an Except { distinct } is created"})
 
     # ---- WITH [RECURSIVE]
     w = X.if_blocks(GEN_QUERY, "translate_query", "if !pq_query.ctes.is_empty() {", name="attach_ctes", need_else=False)[0]
